@@ -134,6 +134,7 @@ class BuildInfo:
         self.axioms: dict[str, list[str]] = {}
         self.forbidden_hits: list[str] = []
         self.gen_changed: list[str] = []
+        self.gen_errors: list[str] = []     # tables that could not be regenerated from the tree under test
         self.leanchecker: str | None = None
 
     @property
@@ -152,6 +153,8 @@ class BuildInfo:
 
     def broken(self) -> list[str]:
         out = []
+        for e in self.gen_errors:
+            out.append("regeneration of a table from the tree under test failed (the previous table stays in place): " + e)
         if not self.props_ok:
             out.append("lake build of the property theorems failed")
         for t in self.theorems:
@@ -221,11 +224,17 @@ def theorems_of(prop: str) -> list[str]:
     return names
 
 
+GEN_ERRORS: list[str] = []
+
+
 def regenerate_gen() -> list[str]:
-    """Regenerate lean/Tup/Gen/*.lean from the repo's current working tree."""
+    """Regenerate lean/Tup/Gen/*.lean from the repo's current working tree.  A generator that cannot run because the
+    implementation raises (or no longer has what the table is read from) leaves its file as it was and is recorded in
+    GEN_ERRORS: the tie of that table to the code is broken, which is reported like a broken proof obligation."""
     from . import gen
 
-    return gen.regenerate(REPO, LEAN / "Tup" / "Gen")
+    GEN_ERRORS.clear()
+    return gen.regenerate(REPO, LEAN / "Tup" / "Gen", errors=GEN_ERRORS)
 
 
 def ensure_built(prop: str | None, drivers: list[str], *, leanchecker: bool = False) -> BuildInfo:
@@ -234,6 +243,7 @@ def ensure_built(prop: str | None, drivers: list[str], *, leanchecker: bool = Fa
     fcntl.flock(lock, fcntl.LOCK_EX)
     try:
         info.gen_changed = regenerate_gen()
+        info.gen_errors = list(GEN_ERRORS)
         # drivers (models/specs only; never import Props)
         targets = sorted(set(drivers))
         if targets:
